@@ -12,3 +12,12 @@ PyByteArray_GET_SIZE = len
 def _as_char(x):
     """a 1-character str (or an int byte) coerced to a C char"""
     return ord(x) if isinstance(x, str) else x
+
+
+def _c_narrow(x, bits, signed):
+    """the value a C integer variable of the given width holds after `var = x` (two's-complement truncation)"""
+    x = int(x)
+    x &= (1 << bits) - 1
+    if signed and x >> (bits - 1):
+        x -= 1 << bits
+    return x
